@@ -264,6 +264,24 @@ theorem C06_lazy_get (text : Str) (b : Str) (c : Option Str) :
   refine ⟨h, fun r hr => ?_⟩
   rw [← lazy_file_abs text r hr]; exact h
 
+/-- **Column equality is sound for the tables, masks included.**  Columns that `__eq__` calls equal
+(data arrays equal *and* masks equal, where "no mask" only equals "no mask") stand for the same
+table; so two columns whose tables differ — e.g. identical data of which only one carries a mask
+with INAPPLICABLE/MISSING rows — are never equal. -/
+theorem C06_masked_eq_sound (a b : MCol) :
+    (MCol.eq a b = true → a.render = b.render) ∧ (a.render ≠ b.render → MCol.eq a b = false) := by
+  have h1 : MCol.eq a b = true → a.render = b.render := by
+    intro h
+    simp only [MCol.eq, Bool.and_eq_true, beq_iff_eq] at h
+    obtain ⟨ad, am⟩ := a
+    obtain ⟨bd, bm⟩ := b
+    simp only at h
+    rw [h.1, h.2]
+  refine ⟨h1, fun hne => ?_⟩
+  cases h : MCol.eq a b with
+  | false => rfl
+  | true => exact absurd (h1 h) hne
+
 /-- **Reads are pure.**  (a) On a column with an explicit mask, `as_array` in every flavour, reading
 `.data.array`, and building a second column on the same data leave (data, mask) unchanged, so a
 whole history of reads gives what each read gives on the *initial* column.  (b) On the containers,
@@ -474,6 +492,8 @@ example : (Seg.toks [str "a", str "#x"] [2, 0]).Ok ∧ (Seg.ml (str "first") [st
     exact ⟨⟨⟨'s', _, rfl, by decide⟩, ⟨str "second lin", 'e', by decide, by decide⟩⟩, by decide, by decide, by decide⟩
 example : ([Seg.toks [str "a", str "#x"] [2, 0], Seg.ml (str "first") [str "second line"], Seg.toks [str "b"] [0]].flatMap Seg.lines) =
     [str "a   '#x'", str ";first", str "second line", str ";", str "b"] := by decide
+example : MCol.eq ⟨[str "x", str "y", str "z"], none⟩ ⟨[str "x", str "y", str "z"], some [0, 2, 1]⟩ = false ∧
+    (MCol.mk [str "x", str "y", str "z"] (some [0, 2, 1])).render = [str "x", sQm, sDot] := by decide
 example : (rcRun (κ := Nat) false ⟨[(0, 2)], none⟩ [.ser, .set 0 3, .ser, .count]).2 =
     [.ok (some 2), .ok none, .ok (some 3), .ok (some 3)] := by decide
 example : NameOk (str "atom_site") := by unfold NameOk; decide
